@@ -52,6 +52,7 @@ def units(tier: str) -> list[tuple]:
     us += [("file", "nasty", 2 if tier == "quick" else 3)]
     us += [("eline", 3 if tier == "quick" else 5)]
     us += [("long", i) for i in range(len(LONG_CONTEXTS))]
+    us += [("huge", i) for i in range(len(HUGE_CONTEXTS))]
     from . import c10
 
     us += [("fstr", i) for i in range(len(c10.FIELDS))]
@@ -71,13 +72,30 @@ EXOTIC_CARRIERS = ["x = {C}\n", "x = 'a{C}b'\n", "# {C}\nx = 1\n", "a{C} = 1\n",
 # size families for the tokenizer: a long homogeneous run inside every lexical context (catastrophic regex backtracking
 # and quadratic loops need length, not variety)
 LONG_CONTEXTS = ["{}", "'{}", '"{}', "'''{}", "f'{}", "f'{{{}", "f'{{a:{}", "#{}", "$({}", "`{}", "r'{}", "b\"{}", "({}", "f!({}", "with! a:\n {}",
-                 "'{}'", "f'{}'", "x = {}\n", "'{}\n", "\"{}\\\n", "p'{}", "$[{}]"]
-LONG_FILLERS = ["a", "ab ", "1", "1.", "\\", "'", '"', " ", "\t", "é", "{", "}", "{{", "(", ")", "a.", "\\n", "\n", "$", "!", "?", "-x ", "0_", "\\N{"]
+                 "'{}'", "f'{}'", "x = {}\n", "'{}\n", "\"{}\\\n", "p'{}", "$[{}]",
+                 # inside a replacement field and inside a format spec, open and closed, in every quote style
+                 "f'{" + "{}", "f'{a:" + "{}", "f'{a:" + "{}" + "}'\n", "f\"{a!r:" + "{}" + "}\"\n", "f\'\'\'{a:" + "{}" + "}\'\'\'\n", "f'{a:{b:" + "{}" + "}}'\n",
+                 "f'{a:" + "{}" + "{b}}'\n", "rf'{a:" + "{}", "f'{a=:" + "{}" + "}'\n", "print(f\"{now:" + "{}" + "}\")\n", "f!(f'{a:" + "{}" + "}')\n"]
+LONG_FILLERS = ["a", "ab ", "1", "1.", "\\", "'", '"', " ", "\t", "é", "{", "}", "{{", "(", ")", "a.", "\\n", "\n", "$", "!", "?", "-x ", "0_", "\\N{", "%A, ", ">", "\\'"]
 LONG_SIZES = [30, 60, 200]
+
+
+# numeric literals around the interpreter's limit for int <-> str conversion (4300 digits): whatever evaluates a literal
+# meets a ValueError there
+HUGE_CONTEXTS = ["x = {}\n", "x = {}j\n", "x = 0x{}\n", "x = {}.5\n", "x = 1e{}\n", "x = -{}\n", "[1, 2.5, {}, 3j]", "match v:\n    case {}:\n        pass\n",
+                 "match v:\n    case -{}:\n        pass\n", "$(echo {})\n", "ls -l | head -n {}\n", "f'{{a:{}}}'\n", "f'{{{}}}'\n", "f!({})\n", "x = {}_{}\n",
+                 "a[{}:{}]\n", "def f(a={}): pass\n", "x = 0b{}\n", "x = 0o{}\n"]
+HUGE_DIGITS = ["9", "1", "0", "7"]
+HUGE_SIZES = [4299, 4300, 4301, 5000, 9000]
 
 
 def cases(unit: tuple):
     kind = unit[0]
+    if kind == "huge":
+        for d in HUGE_DIGITS:
+            for n in HUGE_SIZES:
+                yield HUGE_CONTEXTS[unit[1]].replace("{{", "\0").replace("}}", "\1").replace("{}", ("1" if d == "0" else "") + d * n).replace("\0", "{").replace("\1", "}")
+        return
     if kind == "chr":
         for s in charspace.expand(unit):
             yield s
